@@ -32,6 +32,10 @@ def configs(tier, seed):
             seen.add(kk)
             sel.append(c)
         out = sel
+    # an alert between application records (what follows an alert is outside C01, but -a must not change what is exported)
+    for v, code, name in (("TLS12", 0x009c, "TLS_RSA_WITH_AES_128_GCM_SHA256"), ("TLS10", 0x002f, "TLS_RSA_WITH_AES_128_CBC_SHA"), ("TLS11", 0x0005, "TLS_RSA_WITH_RC4_128_SHA")):
+        out.append({"harness": "tls-meta", "name": "meta-%s-%04x-alert-then-data" % (v, code), "version": v, "suite": code, "suite_name": name, "records": 3, "max_len": 1,
+                    "min_len": 1, "grouping": "separate", "alert_at": 1, "ipv": 4, "shape": "alert-then-data"})
     from tlv.harness import c02
     for c in c02.configs(tier, seed):
         if tier == "quick" and not (c["name"].endswith("cid8.4.8") or c["name"].endswith("cid8.0.8")):
